@@ -1,18 +1,33 @@
 CONFIG = dict(
         level='proof',
         streams=[dict(harness='c12', driver='c12', shrink_field='items')],
-        rule='two kinds of cases in one stream.  pipe: a declared history (commits with parents, author, tick, complete file contents) is written '
+        rule='three kinds of cases in one stream.  pipe: a declared history (commits with parents, author, tick, complete file contents, file modes) is written '
              'into an in-memory git repository and analysed by the REAL pipeline (hercules.NewPipeline, DeployItem DevsAnalysis + CommitsAnalysis + a '
-             'recording item, Initialize, Run) with ConsiderEmptyCommits on/off and the rename threshold set/unset; generators: conflict-free '
+             'recording item, Initialize, Run) with ConsiderEmptyCommits on/off, the rename threshold set/unset, Pipeline.HibernationDistance 0 (fact absent / '
+             'present) or 1..4 in half of the cases, Pipeline.PrintActions / Pipeline.DumpPlan in one case out of eight; generators: every history of <=4 commits '
+             '(quick; 5 thorough) and every such history with a three-parent commit again under hibernation (distance 1; thorough also 2), conflict-free '
              'histories with merges incl. octopus merges and several heads (synth.GenHist), the same closed to one head, the same with commits that '
              'repeat a parent tree or have an empty tree (empty commits, merges equal to one side), linear histories with arbitrary edits (repeated '
-             'lines, deletions, renames, binary flips, missing final newline; synth.GenLinear).  direct: LinesStatsCalculator.Consume on fabricated '
-             'tree changes / blobs / diff scripts: every script of <=4 edits with counts 1..3 and of <=3 edits with counts {0,1,2,5} (thorough: <=5 '
+             'lines, deletions, renames, binary flips, missing final newline; synth.GenLinear), octopus merges of 3..7 parents whose parent branches were idle for '
+             'different lengths (synth.GenOctopusShape + GenHistShape; hibernation in 5 cases of 6), histories drawn from the segment kinds of the long '
+             'histories (kind shape); in one case of six the commit times are non-monotone / reversed / all equal (the replays of one merge then land in '
+             'different ticks), in one of five a file changes its mode (alone or with its content).  scale: LONG histories generated from a few segments '
+             '(lin n: a line; dia n v: n fork/merge diamonds, merges with / without own changes, empty side commits; comb n: n side branches alive at the same '
+             'time, merged one after the other; octo n p: chains of p-parent merges), judged at the end of the run by the same once / listing / conservation '
+             'oracles (extracted fast versions proved equal to the slow ones) and compared with the model: quick 1100 diamonds (3301 commits, >2^10 merges), '
+             '1030 mixed diamonds under hibernation, 10^4 linear commits (3000 commits of one developer in one tick), a comb of 1000 branches (distance 2), 150 '
+             'seven-parent and 18 33-/65-parent octopus merges (distances 3, 4), a mixture; thorough 10^4 diamonds (twice), 10^5 linear commits (70000 of one '
+             'developer in one tick), combs of 5000 and 3000, 2500 five-parent octopus merges, a mixture of 7500 merges.  direct: LinesStatsCalculator.Consume on '
+             'fabricated tree changes / blobs / diff scripts: every script of <=4 edits with counts 1..3 and of <=3 edits with counts {0,1,2,5} (thorough: <=5 '
              'and <=4), random arbitrary and canonical change lists incl. binary blobs, files without final newline, multi-byte runes, large counts, '
-             'repeated entries, merge steps.  Non-trivial = pipe case with >=3 commits or direct case with a script of >=2 edits; distinct = distinct '
-             'declared input (history / change list + options).',
+             'repeated entries, merge steps; large inputs (kind direct-scale): edits and inserted / deleted files of 2^8, 2^10, 2^15, 2^16 lines -1/+0/+1 and 10^5 '
+             '(thorough 2^20), canonical scripts of 10^3 and 10^4 (thorough 10^5, 10^6) edits with counts of period 2, 7, 8, 9, 63, 64, 65.  '
+             'Non-trivial = pipe / scale case with >=3 commits or direct case with a script of >=2 edits; distinct = distinct '
+             'declared input (history / segments / change list + options).',
         exhaustive_note='diff scripts over {equal, insert, delete} x counts {1,2,3} up to length 4 (quick) / 5 (thorough) and x counts {0,1,2,5} up to length 3 / 4 '
-                        'enumerated completely through LinesStatsCalculator.Consume; histories are sampled, not enumerated',
+                        'enumerated completely through LinesStatsCalculator.Consume; every history of <=4 (thorough 5) commits with <=3 parents per commit, own content '
+                        'or the first parent\'s tree, both settings of ConsiderEmptyCommits, without hibernation, and those with a three-parent commit with '
+                        'hibernation distance 1 (thorough 1, 2); longer histories are sampled',
         assumptions=[
             'replay_ok (coq/theories/LineStats/Model.v): the merge flag of a replay step says exactly whether its commit is replayed more than once, and a commit '
             'is replayed at most once per parent.  This is what C02 (plan) and C14 (run loop, isMerge) provide; it is derived in Coq from C02\'s specification and C14_is_merge for every '
@@ -29,11 +44,14 @@ CONFIG = dict(
             'the recording pipeline item of harness/cmd/c12 (reads the dependencies of every replay step) and the ground truth computed by the harness from the '
             'declared file contents (line split, LCS) and from the run plan',
             'hook file /repo/verifapi/c12/c12.go (type aliases and constants only)',
+            'for long replay sequences the driver evaluates replay_ok_fast / once_ok_fast / single_fast / commits_run_fast / devs_result_fast '
+            '(coq/theories/LineStats/Fast.v, FMapPositive of the standard library), proved equal to replay_ok / once_ok / single_branch / commits_run / '
+            'devs_result (C12_fast_*); on sequences of <=40 steps both are evaluated and must agree',
         ],
         level_text='Coq theorems over the model: C12_linestats (all diff scripts without two neighbouring deletions: added+changed = inserted, removed+changed = deleted, '
                    'added-removed = growth), C12_linestats_refuted_without_canonical, C12_commit_conservation (whole commit), C12_language_sums (every run), '
                    'C12_once + C12_once_counters (all replay sequences satisfying replay_ok: at most once, exactly once when every replay changes files or empty commits '
-                   'are counted, the counters are the attributions), C12_listing (listing = commits replayed once, no duplicates).  The model is tied to the Go code by '
+                   'are counted, the counters are the attributions), C12_listing (listing = commits replayed once, no duplicates), C12_fast_* (the n log n judgements applied to long replay sequences equal replay_ok / once_ok / single_branch / commits_run / devs_result on every input).  The model is tied to the Go code by '
                    'replaying every harness case (direct LinesStatsCalculator calls and real pipeline runs) through the extracted model with zero mismatches, and the '
                    'implementation outputs are judged by independent oracles (declared contents, plan).',
         level_note='Proved about the Gallina model, not about the Go text; the tie is the per-run correspondence replay (sampled histories, exhaustive small diff scripts). '
